@@ -91,6 +91,10 @@ namespace verif {
         std::string status = "ok";
         std::function<void()> on_finish;    // called (with m held) when the case ends
         bool finished = false;
+        // optional directed schedule: thread ids to prefer at the next preemption points (a
+        // scripted id that is not schedulable at its turn is skipped); PRNG choices afterwards
+        std::vector<int> script;
+        std::size_t script_pos = 0;
 
         controller(int nthreads, std::uint64_t seed, int strat)
           : n(nthreads)
@@ -137,6 +141,14 @@ namespace verif {
                 else if (th[i].st == tstate::sleeping) sleep.push_back(i);
             }
             if (run.empty() && spin.empty() && sleep.empty()) return -1;
+            while (script_pos < script.size())
+            {
+                int want = script[script_pos++];
+                if (want >= 0 && want < n &&
+                    (th[want].st == tstate::runnable || th[want].st == tstate::spinning ||
+                        th[want].st == tstate::sleeping))
+                    return want;
+            }
             // a spinning thread cannot progress until someone else does: prefer the others,
             // but keep a small chance so that spin loops are exercised as well
             std::vector<int> cand;
